@@ -317,6 +317,63 @@ static void hb_fence(int mo)
   }
 }
 
+// -----------------------------------------------------------------------------------------
+// Store buffering (TSO-style) for atomic stores that are not seq_cst: such a store may stay in
+// the storing thread's buffer while that thread goes on to perform LOADS - the store->load
+// reordering that real hardware (x86 included) performs and that a Dekker-style handshake
+// written with release/acquire or relaxed orders is broken by.  Keeping a store buffered is a
+// recorded choice (one deviation); the buffer is drained, in order, before the thread's next
+// visible operation that is not a load, and whenever the thread yields, blocks or exits, so
+// every store becomes visible after finitely many steps.  The thread's own loads see its
+// buffered values.  seq_cst stores, read-modify-writes and volatile accesses are never buffered.
+// -----------------------------------------------------------------------------------------
+struct SbEntry
+{
+  uintptr_t addr;
+  int size;
+  uint64_t val;
+  VC pub;  // the clock a later acquire of this location obtains
+};
+static std::vector<SbEntry> SB[MAXT];
+static bool tso_on = true;
+static void dep_update(const char *op, uintptr_t addr);
+static inline void mod_at(const volatile void *a);
+static void sb_flush()
+{
+  if (me < 0 || SB[me].empty())
+    return;
+  for (SbEntry &e : SB[me]) {
+    check_freed(e.addr, nullptr);
+    switch (e.size) {
+    case 1: __atomic_store_n((volatile uint8_t *)e.addr, (uint8_t)e.val, __ATOMIC_SEQ_CST); break;
+    case 2: __atomic_store_n((volatile uint16_t *)e.addr, (uint16_t)e.val, __ATOMIC_SEQ_CST); break;
+    case 4: __atomic_store_n((volatile uint32_t *)e.addr, (uint32_t)e.val, __ATOMIC_SEQ_CST); break;
+    default: __atomic_store_n((volatile uint64_t *)e.addr, (uint64_t)e.val, __ATOMIC_SEQ_CST); break;
+    }
+    (*syncvc)[e.addr] = e.pub;
+    mod_at((const volatile void *)e.addr);
+    dep_update("store-commit", e.addr);
+  }
+  SB[me].clear();
+}
+static bool sb_forward(uintptr_t a, int size, uint64_t *out)
+{
+  if (me < 0 || SB[me].empty())
+    return false;
+  for (size_t i = SB[me].size(); i-- > 0;) {
+    SbEntry &e = SB[me][i];
+    if (e.addr == a && e.size == size) {
+      *out = e.val;
+      return true;
+    }
+    if (a < e.addr + e.size && e.addr < a + size) {  // partial overlap: give up the reordering
+      sb_flush();
+      return false;
+    }
+  }
+  return false;
+}
+
 static void plain(uintptr_t a, long n, bool wr, void *pc)
 {
   if (!det_on || me < 0 || in_rt)
@@ -469,6 +526,8 @@ static void schedule(const char *op, uintptr_t addr)
     return;
   RtGuard rtg;
   vw_flush();
+  if (!SB[me].empty() && !(op[0] == 'a' && strcmp(op, "atomic-load") == 0) && strcmp(op, "volatile-load") != 0)
+    sb_flush();  // buffered stores only stay behind while the thread performs loads
   if (++steps > max_steps) {
     std::string d = "step horizon " + std::to_string(max_steps) + " exceeded; " + thread_states();
     finish_execution(4, "no-termination|step horizon exceeded", d.c_str());
@@ -568,6 +627,10 @@ static void spin_yield(const char *op, const void *addr, bool soft = false)
   if (!(active && me >= 0) || in_rt)
     return;
   nyields++;
+  if (!SB[me].empty()) {
+    RtGuard g;
+    sb_flush();  // time passes while a thread spins: its stores become visible
+  }
   T[me].st = YIELDED;
   T[me].soft = soft;
   schedule(op, (uintptr_t)addr);
@@ -749,11 +812,32 @@ void __tsan_write_range(void *a, long n)
   {                                                                                                    \
     point_read("atomic-load", (const void *)a, __builtin_return_address(0));                           \
     HB_LOAD_MO(a, mo);                                                                                        \
+    if (active && me >= 0 && !in_rt && !SB[me].empty()) {                                              \
+      RtGuard g;                                                                                       \
+      uint64_t fv;                                                                                     \
+      if (sb_forward((uintptr_t)a, (int)sizeof(TY), &fv))                                              \
+        return (TY)fv;                                                                                 \
+    }                                                                                                  \
     return __atomic_load_n(a, __ATOMIC_SEQ_CST);                                                       \
   }                                                                                                    \
   void __tsan_atomic##bits##_store(volatile TY *a, TY v, int mo)                                          \
   {                                                                                                    \
     point("atomic-store", (const void *)a);                                                            \
+    if (tso_on && mo != 5 && active && me >= 0 && !in_rt && det_on && nthreads > 1) {                 \
+      RtGuard g;                                                                                       \
+      pending_op_name = "store-buffer?";                                                               \
+      if (choose(2, 2) == 1) {                                                                         \
+        check_freed((uintptr_t)a, __builtin_return_address(0));                                        \
+        SbEntry e;                                                                                     \
+        e.addr = (uintptr_t)a;                                                                         \
+        e.size = (int)sizeof(TY);                                                                      \
+        e.val = (uint64_t)v;                                                                           \
+        e.pub = mo_rel(mo) ? Cth[me] : (HasRelFence[me] ? RelFence[me] : VC());                        \
+        Cth[me].c[me]++;                                                                               \
+        SB[me].push_back(e);                                                                           \
+        return;                                                                                        \
+      }                                                                                                \
+    }                                                                                                  \
     MODIF();                                                                                           \
     HB_STORE_MO(a, mo);                                                                                       \
     __atomic_store_n(a, v, __ATOMIC_SEQ_CST);                                                          \
@@ -1874,6 +1958,8 @@ int main(int argc, char **argv)
       bound_override = atoi(argv[++i]);
     else if (a == "--workers" && i + 1 < argc)
       nworkers = atoi(argv[++i]);
+    else if (a == "--no-tso")
+      tso_on = false;
     else if (a == "--no-state-cache")
       use_state_cache = false;
     else if (a == "--exec-timeout" && i + 1 < argc)
